@@ -71,6 +71,10 @@ CHECKS["C14"] = ("exploration", "4 C14",
     "runtime monitoring: exact rational integral of the piecewise-linear interpolant vs integrate_column (any rank/axis/layout), relational checks, convergence ratios of both IWV forms on refined grids, analytic brackets for pressure2height, ISA table cross-check; icontract postconditions",
     "Hundreds of thousands of lanes, all ranks 1-4 and axes, 2..1e4 levels; convergence must shrink >= 3.5x per doubling.")
 
+CHECKS["C11"] = ("exploration", "4 C11",
+    "runtime monitoring: path->content model checked against os.walk + read-back of every file after every step of generated write/move/copy/convert/delete histories; audit-hook write-set confinement; NetCDF4/CSV default-handler round trips in child processes",
+    "Hundreds of histories of 5-40 steps over filesets whose templates change layout, end-field style and compression suffix; selections by period, file list and filters.")
+
 NOT_YET = {}
 
 
